@@ -198,6 +198,8 @@ func NewSymTab(seed int64, moduleAddr []byte, prefix string) *SymTab {
 		switch i {
 		case 0:
 			v = 0 // Ethereum's CCTP domain is 0: zero-valued fields are a realistic corner (proto3 omits them)
+		case 2:
+			v = 0x2f2f002f // bytes that look like the key separator '/'
 		case 3:
 			v = 0xFFFFFFFF // the largest domain: its store key starts with 0xFF
 		case 4:
@@ -237,7 +239,7 @@ func NewSymTab(seed int64, moduleAddr []byte, prefix string) *SymTab {
 	for i := range t.keys {
 		t.keys[i].Name = fmt.Sprintf("k%d", i+1)
 		t.keyByName[t.keys[i].Name] = &t.keys[i]
-		for _, sp := range []string{"hex", "0x", "UP", "0X"} {
+		for _, sp := range []string{"hex", "0x", "UP", "0X", "odd", "0xodd"} {
 			t.attRev[t.AttesterString(t.keys[i].Name, sp)] = [2]string{t.keys[i].Name, sp}
 		}
 	}
@@ -507,6 +509,10 @@ func (t *SymTab) AttesterString(key, sp string) string {
 		}
 	}
 	switch sp {
+	case "odd": // odd-length hex: the leading zero nibble dropped (the decoder pads it back)
+		return strings.TrimPrefix(h, "0")
+	case "0xodd":
+		return "0x" + strings.TrimPrefix(h, "0")
 	case "hex":
 		return h
 	case "0x":
